@@ -154,6 +154,7 @@ const (
 	Opcode_AddMempointer
 	Opcode_IteratorAdvance
 	Opcode_IntoIter
+	Opcode_Load // replaces the reference to a list element / object field on the stack with its value
 )
 
 func (self Opcode) String() string {
@@ -264,6 +265,8 @@ func (self Opcode) String() string {
 		return "IterAdvance"
 	case Opcode_IntoIter:
 		return "IntoIter"
+	case Opcode_Load:
+		return "Load"
 	default:
 		panic(fmt.Sprintf("Invalid instruction: %d", self))
 	}
